@@ -47,6 +47,7 @@ def install(eng):
     B[_bi.type] = lambda e, st, a, k, n: e.new_object(st, 'type')
     B[_bi.enumerate] = b_enumerate
     B[_bi.zip] = b_zip
+    B[_bi.filter] = b_filter
     B[_bi.reversed] = b_reversed
     B[_math.isnan] = b_math_isnan
     B[_math.isinf] = b_math_isinf
@@ -556,8 +557,52 @@ def b_set(eng, st, args, kwargs, node):
         st.heap[n] = z3.Store(na, s.term, cnt)
         return s
     if isinstance(k, KDict):
-        return b_set(eng, st, [eng.dict_keyseq(st, v)], kwargs, node)
+        # set(d) / set(d.keys()): the membership row IS the dict's key row, the size its size
+        s = SV(KSet(k.k), eng.alloc(st))
+        h, n = eng.snames(s.kind)
+        dh, _, dn = eng.dnames(k)
+        st.heap[h] = z3.Store(eng.harr(st, h), s.term, eng.harr(st, dh)[v.term])
+        st.heap[n] = z3.Store(eng.harr(st, n), s.term, eng.harr(st, dn)[v.term])
+        return s
+    if isinstance(k, KSet):
+        s = SV(k, eng.alloc(st))
+        h, n = eng.snames(k)
+        st.heap[h] = z3.Store(eng.harr(st, h), s.term, eng.harr(st, h)[v.term])
+        st.heap[n] = z3.Store(eng.harr(st, n), s.term, eng.harr(st, n)[v.term])
+        return s
     raise Unsupported("set() of %s" % k)
+
+
+def set_binop(eng, st, op, a, b, node, into=None):
+    """a & b, a | b, a - b on sets of the same element kind: a fresh set (or, for the augmented forms, the left operand
+    itself updated in place) whose membership row is characterised pointwise; its size is only known to be 0 exactly when
+    no element is a member, and bounded by the operands' sizes."""
+    _use("set-algebra")
+    if not (isinstance(a.kind, KSet) and isinstance(b.kind, KSet) and a.kind.elem == b.kind.elem):
+        raise Unsupported("set operation on %s / %s" % (a.kind, b.kind))
+    k = a.kind
+    h, n = eng.snames(k)
+    hb, nb = eng.snames(b.kind)
+    ra, rb = eng.harr(st, h)[a.term], eng.harr(st, hb)[b.term]
+    na_, nb_ = eng.harr(st, n)[a.term], eng.harr(st, nb)[b.term]
+    x = z3.Const("sb_x", sort_of(k.elem))
+    mem = st.fresh("setop", z3.ArraySort(sort_of(k.elem), z3.BoolSort()))
+    if isinstance(op, ast.BitAnd):
+        body, bound = z3.And(ra[x], rb[x]), [lambda c: c <= na_, lambda c: c <= nb_]
+    elif isinstance(op, ast.BitOr):
+        body, bound = z3.Or(ra[x], rb[x]), [lambda c: c <= na_ + nb_, lambda c: c >= na_, lambda c: c >= nb_]
+    elif isinstance(op, ast.Sub):
+        body, bound = z3.And(ra[x], z3.Not(rb[x])), [lambda c: c <= na_]
+    else:
+        raise Unsupported("set operator %s" % type(op).__name__)
+    eng.assume(st, qforall([x], mem[x] == body, patterns=[mem[x], ra[x], rb[x]]))
+    cnt = st.fresh("setopn", z3.IntSort())
+    eng.assume(st, z3.And([cnt >= 0] + [f(cnt) for f in bound]))
+    eng.assume(st, (cnt == 0) == qforall([x], z3.Not(mem[x]), patterns=[mem[x]]))
+    out = into if into is not None else SV(k, eng.alloc(st))
+    st.heap[h] = z3.Store(eng.harr(st, h), out.term, mem)
+    st.heap[n] = z3.Store(eng.harr(st, n), out.term, cnt)
+    return out
 
 
 def b_dict(eng, st, args, kwargs, node):
@@ -691,6 +736,16 @@ def rank_in_set(has, x):
     return uf("rank_in_set", has.sort(), z3.IntSort(), z3.IntSort())(has, x)
 
 
+def idx_query(st, j):
+    """Identically true; a trigger term (see the filtered comprehension)."""
+    f = uf("idx_query", z3.IntSort(), z3.BoolSort())
+    if not st.ghost.get("idx_query_axiom"):
+        st.ghost["idx_query_axiom"] = True
+        a = z3.Int("iq_j")
+        st.assume(qforall([a], f(a), patterns=[f(a)]), quantified=True)
+    return f(j)
+
+
 def all_distinct(row, n):
     return uf("all_distinct", row.sort(), z3.IntSort(), z3.BoolSort())(row, n)
 
@@ -795,6 +850,23 @@ def b_zip(eng, st, args, kwargs, node):
         items = [g(i) for _, g in seqs]
         return SV(KTuple([it.kind for it in items]), None, items=items)
     return SV(KConst, None, const=("seq", z3.simplify(n), get, None))
+
+
+def b_filter(eng, st, args, kwargs, node):
+    """filter(f, iterable): the filtered comprehension [x for x in iterable if f(x)] (f evaluated without exception paths)."""
+    _use("filter")
+    if len(node.args) != 2 or kwargs:
+        raise Unsupported("filter signature")
+    var = ast.Name(id="__filter_x", ctx=ast.Load())
+    if isinstance(node.args[0], ast.Constant) and node.args[0].value is None:
+        cond = var
+    else:
+        cond = ast.Call(func=node.args[0], args=[var], keywords=[])
+    comp = ast.ListComp(elt=var, generators=[ast.comprehension(target=ast.Name(id="__filter_x", ctx=ast.Store()), iter=node.args[1],
+                                                                  ifs=[cond], is_async=0)])
+    ast.copy_location(comp, node)
+    ast.fix_missing_locations(comp)
+    return comprehension(eng, st, comp, "list")
 
 
 def b_reversed(eng, st, args, kwargs, node):
@@ -914,6 +986,19 @@ def m_val_items(eng, st, recv, args, kwargs, node):
 
 # --------------------------------------------------------------------------------------------------
 # comprehensions
+def _peeled_triggers(term, var):
+    """Extra E-matching triggers for an element term a[var] whose array a is a chain of stores: the same read on each
+    array underneath the stores (instances are harmless, the axiom itself is unchanged)."""
+    out = []
+    t = z3.simplify(term)
+    if z3.is_select(t) and z3.eq(t.arg(1), var):
+        a = t.arg(0)
+        while z3.is_store(a):
+            a = a.arg(0)
+            out.append(z3.Select(a, var))
+    return out
+
+
 def _mentions(term, var):
     seen, todo = set(), [term]
     while todo:
@@ -987,13 +1072,34 @@ def comprehension(eng, st, node, what, frame=None):
             eng.assume(st, qforall([j], z3.Implies(z3.And(0 <= j, j < m),
                        z3.And(0 <= srcidx[j], srcidx[j] < n, z3.And(conds2), arr[j] == elt2.term, pos[srcidx[j]] == j)),
                        patterns=[arr[j]]))
-            eng.assume(st, qforall([j, j2], z3.Implies(z3.And(0 <= j, j < j2, j2 < m), srcidx[j] < srcidx[j2]),
-                       patterns=[z3.MultiPattern(srcidx[j], srcidx[j2])]))
-            conds3, _ = pure_at(j)
+            if eng.reg.rt_helpers.get("comp_monotone_full"):
+                eng.assume(st, qforall([j, j2], z3.Implies(z3.And(0 <= j, j < j2, j2 < m), srcidx[j] < srcidx[j2]),
+                           patterns=[z3.MultiPattern(srcidx[j], srcidx[j2])]))
+            # (order preservation of the filter is only emitted on request: the all-pairs form floods E-matching with one
+            # instance per pair of source-index terms; no current contract needs it)
+            conds3, elt3 = pure_at(j)
+            elt3 = eng.coerce(st, elt3, ek, node)
             src_j = getter(j)
             trig = [pos[j]] + ([src_j.term] if src_j.term is not None else [])
-            eng.assume(st, qforall([j], z3.Implies(z3.And(0 <= j, j < n, z3.And(conds3)),
-                       z3.And(0 <= pos[j], pos[j] < m, srcidx[pos[j]] == j)), patterns=trig))
+            if src_j.term is not None:
+                trig += _peeled_triggers(src_j.term, j)
+            fwd = z3.Implies(z3.And(0 <= j, j < n, z3.And(conds3)), z3.And(0 <= pos[j], pos[j] < m, srcidx[pos[j]] == j))
+            eng.assume(st, qforall([j], fwd, patterns=trig))
+            # where a selected source element ends up in the result -- only on request (idx_query(j), identically true, is a
+            # trigger term contracts put next to an index they ask about): stating it for every known source term would let
+            # this axiom and the previous one feed each other new terms forever
+            fwdq = z3.Implies(z3.And(0 <= j, j < n, z3.And(conds3)), z3.And(0 <= pos[j], pos[j] < m, arr[pos[j]] == elt3.term))
+            eng.assume(st, qforall([j], z3.Implies(idx_query(st, j), fwdq), patterns=[idx_query(st, j)]))
+            fwd = z3.And(fwd, fwdq)
+            # ground instances at the indices the source list was explicitly written at (append / item assignment)
+            if src_j.term is not None:
+                t = z3.simplify(src_j.term)
+                a = t.arg(0) if z3.is_select(t) else None
+                seen = 0
+                while a is not None and z3.is_store(a) and seen < 4:
+                    eng.assume(st, z3.substitute(fwd, (j, a.arg(1))))
+                    a = a.arg(0)
+                    seen += 1
             st.ghost.setdefault("comp", {})[out.term.get_id()] = (srcidx, pos, m)
         st.heap[e_] = z3.Store(eng.harr(st, e_), out.term, arr)
         eng.set_is_tuple(st, out, False)
@@ -1034,6 +1140,7 @@ def comprehension(eng, st, node, what, frame=None):
             eng.assume(st, qforall([kk], mem[kk] == z3.And(hsrc[kk], cond), patterns=[mem[kk], hsrc[kk]]))
             cnt = st.fresh("fdcn", z3.IntSort())
             eng.assume(st, z3.And(cnt >= 0, cnt <= eng.harr(st, szs)[srcd.term]))
+            eng.assume(st, (cnt == 0) == qforall([kk], z3.Not(mem[kk]), patterns=[mem[kk]]))
             st.heap[h] = z3.Store(eng.harr(st, h), out.term, mem)
             st.heap[v] = z3.Store(eng.harr(st, v), out.term, vsrc)
             st.heap[sz] = z3.Store(eng.harr(st, sz), out.term, cnt)
@@ -1056,6 +1163,7 @@ def comprehension(eng, st, node, what, frame=None):
         eng.assume(st, qforall([kk], z3.Implies(mem[kk], z3.And(0 <= wit[kk], wit[kk] < n, kw.term == kk, val[kk] == vwc.term)), patterns=[mem[kk]]))
         cnt = st.fresh("dcn", z3.IntSort())
         eng.assume(st, z3.And(cnt >= 0, cnt <= n))
+        eng.assume(st, (cnt == 0) == qforall([kk], z3.Not(mem[kk]), patterns=[mem[kk]]))
         st.heap[h] = z3.Store(eng.harr(st, h), out.term, mem)
         st.heap[v] = z3.Store(eng.harr(st, v), out.term, val)
         st.heap[sz] = z3.Store(eng.harr(st, sz), out.term, cnt)
